@@ -27,6 +27,7 @@ type c10X struct {
 	Via       int
 	TLS8Bit   bool // the in-TLS capability list has 8BITMIME (the plaintext one then does not)
 	TLSNoCaps bool // the in-TLS EHLO reply has no capability lines at all
+	TLSNoEhlo bool // inside TLS the server refuses EHLO: the client falls back to HELO and knows no extension
 }
 
 var c10Pre = []string{"greeted", "authenticated", "mid-transaction", "mid-BDAT"}
@@ -147,7 +148,14 @@ func genC10Client(t *Tape, sc *Scenario, x *c10X) *Scenario {
 	x.TLS8Bit = t.Bool()
 	x.TLSNoCaps = t.Chance(1, 4)
 	stub := &StubScript{Behaviour: x.Stub, Gap: Dur(t.Intn(10)) * 100 * time.Microsecond}
-	if x.TLSNoCaps {
+	if !x.TLSNoCaps && t.Chance(1, 5) {
+		// inside TLS the server refuses EHLO and takes HELO: nothing was negotiated there
+		x.TLSNoEhlo = true
+		x.TLS8Bit = false
+		stub.TLSNoEhlo = true
+		stub.PlainCaps = []string{"8BITMIME", "SIZE 100", "AUTH PLAIN"}
+		stub.TLSCaps = nil
+	} else if x.TLSNoCaps {
 		// inside TLS the server answers EHLO with the greeting line only
 		x.TLS8Bit = false
 		stub.PlainCaps = []string{"8BITMIME", "SIZE 100", "AUTH PLAIN"}
@@ -432,7 +440,7 @@ func checkC10Client(sc *Scenario, h *History, x *c10X) []Violation {
 					v("C10.plaintext-capabilities", "MAIL inside TLS was %q but the in-TLS capability list has 8BITMIME=%v: parameters were taken from the plaintext EHLO or from an injected reply", l, x.TLS8Bit)
 				}
 				hasSize := strings.Contains(strings.ToUpper(l), "SIZE=")
-				if hasSize != (!x.TLS8Bit && !x.TLSNoCaps) {
+				if hasSize != (!x.TLS8Bit && !x.TLSNoCaps && !x.TLSNoEhlo) {
 					v("C10.plaintext-capabilities", "MAIL inside TLS was %q but the in-TLS capability list has SIZE=%v", l, !x.TLS8Bit)
 				}
 			}
@@ -451,11 +459,14 @@ func classifyC10(sc *Scenario, h *History, st *Stats) string {
 			if x.TLSNoCaps {
 				st.Probes["in_tls_ehlo_reply_without_capabilities"]++
 			}
+			if x.TLSNoEhlo {
+				st.Probes["in_tls_ehlo_refused_client_falls_back_to_helo"]++
+			}
 		}
 		if ch.Stub != nil && ch.Stub.HandshakeErr != "" {
 			st.Faults["tls_handshake_failed"]++
 		}
-		return fmt.Sprintf("client|%d|%d|%v|%v", x.Stub, x.Via, x.TLS8Bit, x.TLSNoCaps)
+		return fmt.Sprintf("client|%d|%d|%v|%v|%v", x.Stub, x.Via, x.TLS8Bit, x.TLSNoCaps, x.TLSNoEhlo)
 	}
 	if ch.HandshakeDone {
 		st.Probes["server_tls_session_established"]++
@@ -505,7 +516,7 @@ func init() {
 		Real:        []string{"smtp.Server.Serve/handleConn, handleStartTLS, handleGreet", "smtp.Client: NewClientStartTLS, DialStartTLS, SendMail, startTLS/setConn, hello, Mail", "crypto/tls client and server", "net/textproto"},
 		Stub:        []string{"net.Listener (SimListener)", "net.Conn (SimConn, with a raw tap below TLS)", "Backend/AuthSession (SimBackend)", "hostile SMTP server (stub) for the client half", "dialing (VerifDial hook, build tag verif)", "clock (synctest)"},
 		Assumptions: []string{"after a failed handshake nothing is judged except C08's rules", "package-level SendMail verifies certificates with the default configuration, so against the simulated self-signed peer only its failure modes are reachable"},
-		Required:    []string{"client_tls_session_established", "in_tls_ehlo_reply_without_capabilities", "injected_plaintext_later_segment_breaks_handshake", "injected_plaintext_same_segment_then_tls_ok", "server_tls_session_established", "stub_honest", "stub_454", "stub_starttls-not-advertised", "stub_220-then-garbage", "stub_220-then-cut", "stub_220+injected-reply-same-segment", "stub_220+injected-reply-later-segment", "handshake_fails_connection_goes_on_in_plaintext"},
+		Required:    []string{"client_tls_session_established", "in_tls_ehlo_reply_without_capabilities", "injected_plaintext_later_segment_breaks_handshake", "injected_plaintext_same_segment_then_tls_ok", "server_tls_session_established", "stub_honest", "stub_454", "stub_starttls-not-advertised", "stub_220-then-garbage", "stub_220-then-cut", "stub_220+injected-reply-same-segment", "stub_220+injected-reply-later-segment", "handshake_fails_connection_goes_on_in_plaintext", "in_tls_ehlo_refused_client_falls_back_to_helo"},
 		QuickRuns:   12000, ThoroughRuns: 600000,
 	})
 }
